@@ -6,7 +6,7 @@
    src/logics/ArithLogic.cc:875-930  mkConst(SRef, name), mkConst(name)
    GMP (mpz/set_str.c, mpq/set_str.c, mpq/canonicalize.c) is modelled for the inputs that reach it. *)
 From Coq Require Import ZArith NArith QArith List Ascii Bool.
-From OsmtV.Num Require Import Chars Gen_RealString.
+From OsmtV.Num Require Import Chars Gen_RealString Gen_Normalize.
 Import ListNotations.
 Local Open Scope N_scope.
 
@@ -148,8 +148,8 @@ Inductive str_result :=
 
 (* the return value of mpq_set_str is ignored (assert compiled out): a failed parse leaves what
    mpq_init / the partial parse produced *)
-Definition normalize (flo : str) (is_neg : bool) : str_result :=
-  match mpq_canon (snd (mpq_set_str (0%Z, 1%Z) flo 0)) with
+Definition normalize_b (base : N) (flo : str) (is_neg : bool) : str_result :=
+  match mpq_canon (snd (mpq_set_str (0%Z, 1%Z) flo base)) with
   | None => StrCrash
   | Some q => StrVal (if is_neg then Qred (- q) else q)
   end.
@@ -205,7 +205,8 @@ Fixpoint p3_copy (started : bool) (n : nat) (s : str) {struct s} : option str :=
     end
   end.
 
-Definition string_to_rational (s : str) : str_result :=
+Definition string_to_rational_b (base : N) (s : str) : str_result :=
+  let normalize := normalize_b base in
   let is_neg := has_minus s in
   let flo := strip_minus s in
   match p1_run (Build_p1 0 0 0 false) flo with
@@ -223,13 +224,18 @@ Definition string_to_rational (s : str) : str_result :=
          end
   end.
 
+(* the tree's functions: the base is regenerated from NumberUtils.h (Gen_Normalize.v); 0 = by prefix
+   (the unchanged tree), 10 = decimal (the proposed repair) *)
+Definition normalize := normalize_b normalize_base.
+Definition string_to_rational := string_to_rational_b normalize_base.
+
 (* ---- FastRational(const char * s, base 10) ----------------------------------------------------- *)
 Inductive fr_result :=
 | FRVal (q : Q)
 | FRGarbage           (* mpq_set_str failed on a recycled mpq_t: the value is whatever it held before *)
 | FRCrash.
 Definition fr_of_string (s : str) : fr_result :=
-  let '(ok, nd) := mpq_set_str (0%Z, 1%Z) s 10 in
+  let '(ok, nd) := mpq_set_str (0%Z, 1%Z) s fastrational_default_base in
   if ok then match mpq_canon nd with Some q => FRVal q | None => FRCrash end else FRGarbage.
 
 (* ---- ArithLogic::mkConst ----------------------------------------------------------------------- *)
@@ -270,3 +276,24 @@ Definition dec_value (ip fp : str) : Q := (inject_Z (Z.of_N (digits_val (ip ++ f
 Definition frac_value (n d : str) : Q := (inject_Z (Z.of_N (digits_val n)) / inject_Z (Z.of_N (digits_val d)))%Q.
 Definition signed (neg : bool) (q : Q) : Q := if neg then (- q)%Q else q.
 Definition sign_str (neg : bool) : str := if neg then [ch 45] else [].
+
+(* ---- identity of Int constants (DESIGN.md par.9 #12) ---------------------------------------------
+   mkConst(sort_INT, name) keeps the raw text as the symbol name, so equal values with different
+   spellings are different terms.  mkEq of two constants: Logic::mkBinaryEq (used when the logic has UF
+   or arrays; src/logics/Logic.cc:502-505) answers by term identity, ArithLogic::mkBinaryEq
+   (src/logics/ArithLogic.cc:766-778) by value. *)
+Fixpoint str_eqb (a b : str) : bool :=
+  match a, b with
+  | [], [] => true
+  | x :: a', y :: b' => (code x =? code y) && str_eqb a' b'
+  | _, _ => false
+  end.
+Definition mk_eq_int_consts (uf : bool) (a b : str) : option bool :=
+  if is_int_string a && is_int_string b then
+    if str_eqb a b then Some true
+    else if uf then Some false
+    else match fr_of_string a, fr_of_string b with
+         | FRVal p, FRVal q => Some (Qeq_bool p q)
+         | _, _ => None
+         end
+  else None.
